@@ -63,6 +63,19 @@ def py_cmp(l, o, r):
     return l == r and l.endswith("_LIST")
 
 
+CONFUSABLE = [0, 1, 2, 3, 10, 11, 12, 13, 20, 21, 23, 30, 31, 32, 100, 101, 102, 110, 111, 112, 120, 121, 123, 201, 210, 211]
+
+
+def sample_ids(rng, n, limit=60):
+    """n distinct ids < limit-ish; half of the time drawn from numbers whose decimal spellings contain one another
+    (1 / 10 / 12 / 21 / 112 ...): string-level handling of ids (prefix / substring tests, dotted scopes) only goes
+    wrong on such ids."""
+    pool = CONFUSABLE if rng.random() < 0.5 else list(range(limit))
+    if n > len(pool):
+        pool = sorted(set(pool) | set(range(limit)))
+    return rng.sample(pool, n)
+
+
 class Builder:
     def __init__(self, rng, n_actions=6, threads=False):
         self.rng = rng
@@ -79,7 +92,7 @@ class Builder:
     def make_types(self):
         rng = self.rng
         nt = rng.randint(1, 3)
-        ids = rng.sample(range(0, 30), nt)
+        ids = sample_ids(rng, nt, 30)
         for k, tid in enumerate(ids):
             attrs = []
             names = rng.sample(range(0, 12), rng.randint(3, 8))
@@ -188,12 +201,12 @@ class Builder:
         rng, s = self.rng, self.s
         self.make_types()
         npar = rng.randint(1, 3)
-        for i, pid in enumerate(rng.sample(range(0, 9), npar)):
+        for i, pid in enumerate(sample_ids(rng, npar, 9)):
             s["parties"].append({"id": pid, "name": 200 + pid})
         n = self.n
-        aids = rng.sample(range(0, 40), n)
-        pids = rng.sample(range(0, 40), n)
-        cids = rng.sample(range(0, 60), 3 * n + 3)
+        aids = sample_ids(rng, n, 40)
+        pids = sample_ids(rng, n, 40)
+        cids = rng.sample(sorted(set(CONFUSABLE) | set(range(0, 60))), 3 * n + 3)
         used_ms = set()
         anc = {}        # action id -> set of ancestor action ids
         creator = {}    # promise id -> creator action id
@@ -340,17 +353,32 @@ class Builder:
         return [(p, t, o) for (p, t, o) in self.paths_from(tid) if t.endswith("_LIST")]
 
     def add_threads(self):
+        """A forest of thread groups: 1-2 top-level groups spawned from list-valued promise paths, each with up to
+        two nested groups per level down to depth 3 (spawned from the enclosing variable or from a promise that an
+        ancestor of the chain fulfils), with or without a checkpoint of their own; sibling groups may reuse a
+        variable name (only a nesting chain must be free of repetitions); group ids are drawn from confusable numbers."""
         rng, s = self.rng, self.s
         roots = [p for p in s["promises"] if self.list_paths(p["type"][1])]
         if not roots:
             return
-        n_top = rng.choice([1, 1, 2])
         next_id = lambda coll: max([e["id"] for e in s[coll]] + [0]) + 1
+        gid_pool = [g for g in sample_ids(rng, 14, 40)]
         var_counter = [rng.randrange(50)]
 
-        def fresh_var():
+        def fresh_var(avoid):
+            # reuse a name from another branch now and then
+            others = [g["var"] for g in s["groups"] if g["var"] not in avoid]
+            if others and rng.random() < 0.35:
+                return rng.choice(others)
             var_counter[0] += 1
             return var_counter[0]
+
+        def new_gid():
+            while gid_pool:
+                g = gid_pool.pop()
+                if all(x["id"] != g for x in s["groups"]):
+                    return g
+            return next_id("groups")
 
         def new_cp(deps, ctx):
             cid = self.free_cids.pop() if self.free_cids else next_id("checkpoints")
@@ -361,23 +389,61 @@ class Builder:
             return cid
 
         def item_type(ty, obj):
-            # de-listified (ty, obj)
             return ty[:-5], obj
 
-        for _ in range(n_top):
+        def nested(parent, parent_anc, chain, depth):
+            """chain: [(group, variable type)] from the outermost group down to parent"""
+            for _ in range(rng.choice([0, 1, 1, 2]) if depth < 3 else 0):
+                pvty = chain[-1][1]
+                src = None
+                holders = [(g, vt) for (g, vt) in chain if vt[0] == "OBJECT" and self.list_paths(vt[1])]
+                if holders and rng.random() < 0.7:
+                    g0, vt0 = rng.choice(holders)
+                    p2, t2, o2 = rng.choice(self.list_paths(vt0[1]))
+                    src, hv = ("V", g0["id"], list(p2)), item_type(t2, o2)
+                else:
+                    cands = [q for q in s["promises"] if self.creator.get(q["id"]) in parent_anc and q["ctx"] is None and self.list_paths(q["type"][1])]
+                    if cands:
+                        q = rng.choice(cands)
+                        p2, t2, o2 = rng.choice(self.list_paths(q["type"][1]))
+                        src, hv = ("P", ("promise", q["id"]), list(p2)), item_type(t2, o2)
+                if src is None:
+                    continue
+                hid = new_gid()
+                H = {"id": hid, "name": 600 + hid, "ctx": ("group", parent["id"]), "dep": None, "src": src,
+                     "var": fresh_var([g["var"] for (g, _) in chain])}
+                H_anc = set(parent_anc)
+                if rng.random() < 0.4:
+                    nt = [a["id"] for a in s["actions"] if a["ctx"] is None]
+                    d0 = self.make_cmp(rng.choice(nt))[0]
+                    # the group's own checkpoint must be visible from the enclosing group's scope
+                    ctx_choices = [None] + [("group", g["id"]) for (g, _) in chain]
+                    hcp = new_cp([d0], rng.choice(ctx_choices))
+                    H["dep"] = ("checkpoint", hcp)
+                    for o in (d0[1], d0[3]):
+                        if o[0] == "act":
+                            H_anc |= {o[1][1]} | self.anc[o[1][1]]
+                s["groups"].append(H)
+                chain2 = chain + [(H, hv)]
+                used = nested(H, H_anc, chain2, depth + 1)
+                # a group must be used by an action or a nested group
+                if not used or rng.random() < 0.8:
+                    self._thread_actions(H, H_anc, chain2, next_id, new_cp)
+            return any(g["ctx"] == ("group", parent["id"]) for g in s["groups"])
+
+        for _ in range(rng.choice([1, 1, 2])):
             P = rng.choice(roots)
             creator_action = self.creator[P["id"]]
             path, ty, obj = rng.choice(self.list_paths(P["type"][1]))
-            # the group's checkpoint mentions the fulfiller (so that it is an ancestor), maybe more
             deps = [self.make_cmp(creator_action)[0]]
             if rng.random() < 0.4:
                 other = rng.choice([a["id"] for a in s["actions"] if a["ctx"] is None])
                 if other != creator_action:
                     deps.append(self.make_cmp(other)[0])
             gcp = new_cp(deps, None)
-            gid = next_id("groups") + rng.randrange(3)
+            gid = new_gid()
             G = {"id": gid, "name": 600 + gid, "ctx": None, "dep": ("checkpoint", gcp), "src": ("P", ("promise", P["id"]), list(path)),
-                 "var": fresh_var()}
+                 "var": fresh_var([])}
             s["groups"].append(G)
             G_anc = set()
             for d in deps:
@@ -385,35 +451,10 @@ class Builder:
                     if o[0] == "act":
                         G_anc |= {o[1][1]} | self.anc[o[1][1]]
             vty = item_type(ty, obj)
-            self._thread_actions(G, G_anc, [(G, vty)], next_id, new_cp)
-            # nested group
-            if rng.random() < 0.5:
-                hid = next_id("groups") + rng.randrange(3)
-                src = None
-                if vty[0] == "OBJECT" and self.list_paths(vty[1]) and rng.random() < 0.7:
-                    p2, t2, o2 = rng.choice(self.list_paths(vty[1]))
-                    src, hv = ("V", gid, list(p2)), item_type(t2, o2)
-                else:
-                    # spawn from a promise fulfilled by an ancestor of the enclosing group
-                    cands = [q for q in s["promises"] if self.creator.get(q["id"]) in G_anc and q["ctx"] is None and self.list_paths(q["type"][1])]
-                    if cands:
-                        q = rng.choice(cands)
-                        p2, t2, o2 = rng.choice(self.list_paths(q["type"][1]))
-                        src, hv = ("P", ("promise", q["id"]), list(p2)), item_type(t2, o2)
-                if src is not None:
-                    H = {"id": hid, "name": 600 + hid, "ctx": ("group", gid), "dep": None, "src": src, "var": fresh_var()}
-                    H_anc = set(G_anc)
-                    if rng.random() < 0.4:
-                        # own checkpoint, visible from the parent's scope
-                        nt = [a["id"] for a in s["actions"] if a["ctx"] is None]
-                        d0 = self.make_cmp(rng.choice(nt))[0]
-                        hcp = new_cp([d0], rng.choice([None, ("group", gid)]))
-                        H["dep"] = ("checkpoint", hcp)
-                        for o in (d0[1], d0[3]):
-                            if o[0] == "act":
-                                H_anc |= {o[1][1]} | self.anc[o[1][1]]
-                    s["groups"].append(H)
-                    self._thread_actions(H, H_anc, [(G, vty), (H, hv)], next_id, new_cp)
+            chain = [(G, vty)]
+            used = nested(G, G_anc, chain, 1)
+            if not used or rng.random() < 0.85:
+                self._thread_actions(G, G_anc, chain, next_id, new_cp)
 
     def var_operand(self, g, vty):
         """An operand on the thread variable of group g with a comparison partner."""
@@ -467,6 +508,9 @@ class Builder:
                 # a checkpoint that only holds a variable comparison still needs the thread context
                 cid = new_cp(deps, ctx)
                 action["dep"] = ("checkpoint", cid)
+            elif G["dep"] is not None and rng.random() < 0.25:
+                # legal, redundant spelling: the action names the checkpoint its thread group already depends on
+                action["dep"] = G["dep"]
             if edit is not None:
                 prom = next(x for x in s["actions"] if x["id"] == edit)["promise"][1]
                 action["promise"] = ("promise", prom)
@@ -521,14 +565,28 @@ RENDER_HOOKS = []     # extensions (e.g. pipelines): functions (renderer, doc) -
 class Renderer:
     """Scenario -> JSON document.  `spell(kind, id)` decides id vs alias spelling per occurrence."""
 
-    def __init__(self, s, rng=None, spelling="mixed", shuffle=False, descriptive=False):
+    def __init__(self, s, rng=None, spelling="mixed", shuffle=False, descriptive=False, numeric_names=False):
         self.s, self.rng = s, rng or random.Random(0)
         self.spelling, self.shuffle, self.descriptive = spelling, shuffle, descriptive
         self.names = {}
+        self.name_of = {}      # (kind, name index) -> rendered name
         for coll, kind, nk in (("parties", "party", "name"), ("otypes", "type", "name"), ("promises", "promise", "name"),
                                ("actions", "action", "name"), ("checkpoints", "checkpoint", "alias"), ("groups", "group", "name")):
-            for e in s[coll]:
-                self.names.setdefault((kind, e["id"]), self.entity_name(kind, e[nk]))
+            ids = [e["id"] for e in s[coll]]
+            nidx = [e[nk] for e in s[coll]]
+            numeric = numeric_names and len(set(ids)) == len(ids) and len(set(nidx)) == len(nidx) and len(ids) >= 1
+            for k, e in enumerate(s[coll]):
+                if numeric:
+                    # the alias of one entity is the decimal spelling of the id of the NEXT one (its own when alone):
+                    # "kind:{7}" and "kind:7" then denote different entities
+                    nm = str(ids[(k + 1) % len(ids)])
+                else:
+                    nm = self.entity_name(kind, e[nk])
+                self.name_of.setdefault((kind, e[nk]), nm)
+                self.names.setdefault((kind, e["id"]), self.name_of[(kind, e[nk])])
+
+    def ename(self, kind, n):
+        return self.name_of.get((kind, n), self.entity_name(kind, n))
 
     @staticmethod
     def entity_name(kind, n):
@@ -581,7 +639,7 @@ class Renderer:
         doc = {"standard": "generated", "terms": [], "parties": [], "object_types": [], "object_promises": [],
                "pipelines": [], "actions": [], "checkpoints": []}
         for p in s["parties"]:
-            e = {"id": p["id"], "name": self.entity_name("party", p["name"])}
+            e = {"id": p["id"], "name": self.ename("party", p["name"])}
             if self.descriptive and rng.random() < 0.5:
                 e["hex_code"] = rng.choice(["#fff", "#A0b1C2"])
             doc["parties"].append(e)
@@ -595,12 +653,12 @@ class Renderer:
                 if self.descriptive and rng.random() < 0.3:
                     e["description"] = "an attribute"
                 attrs.append(e)
-            e = {"id": t["id"], "name": self.entity_name("type", t["name"]), "attributes": self.maybe_shuffle(attrs)}
+            e = {"id": t["id"], "name": self.ename("type", t["name"]), "attributes": self.maybe_shuffle(attrs)}
             if self.descriptive and rng.random() < 0.5:
                 e["description"] = "a type"
             doc["object_types"].append(e)
         for p in s["promises"]:
-            e = {"id": p["id"], "name": self.entity_name("promise", p["name"]), "object_type": self.ref(p["type"])}
+            e = {"id": p["id"], "name": self.ename("promise", p["name"]), "object_type": self.ref(p["type"])}
             if p["ctx"] is not None:
                 e["context"] = self.ref(p["ctx"])
             if self.descriptive and rng.random() < 0.5:
@@ -617,7 +675,7 @@ class Renderer:
             if a["op"]["appends"] is not None:
                 r, path = a["op"]["appends"]
                 op["appends_objects_to"] = ".".join([self.ref(r)] + [self.attr_name(n) for n in path])
-            e = {"id": a["id"], "name": self.entity_name("action", a["name"]), "description": "does something",
+            e = {"id": a["id"], "name": self.ename("action", a["name"]), "description": "does something",
                  "party": self.ref(a["party"]), "object_promise": self.ref(a["promise"]), "operation": op}
             if a["ctx"] is not None:
                 e["context"] = self.ref(a["ctx"])
@@ -631,7 +689,7 @@ class Renderer:
                 e["steps"] = [{"title": "t", "description": "d"}]
             doc["actions"].append(e)
         for c in s["checkpoints"]:
-            e = {"id": c["id"], "alias": self.entity_name("checkpoint", c["alias"]), "description": "a checkpoint",
+            e = {"id": c["id"], "alias": self.ename("checkpoint", c["alias"]), "description": "a checkpoint",
                  "dependencies": self.maybe_shuffle([self.dep(d) for d in c["deps"]])}
             if c["gate"] is not None:
                 e["gate_type"] = c["gate"]
@@ -649,7 +707,7 @@ class Renderer:
                 else:
                     og = next((x for x in s["groups"] if x["id"] == g["src"][1]), None)
                     fe = ".".join([self.var_name(og["var"]) if og else "$nosuch"] + [self.attr_name(n) for n in g["src"][2]])
-                e = {"id": g["id"], "name": self.entity_name("group", g["name"]), "description": "a thread group",
+                e = {"id": g["id"], "name": self.ename("group", g["name"]), "description": "a thread group",
                      "spawn": {"foreach": fe, "as": self.var_name(g["var"])}}
                 if g["ctx"] is not None:
                     e["context"] = self.ref(g["ctx"])
@@ -670,8 +728,8 @@ class Renderer:
         return doc
 
 
-def render(s, rng=None, spelling="mixed", shuffle=False, descriptive=False):
-    return Renderer(s, rng, spelling, shuffle, descriptive).render()
+def render(s, rng=None, spelling="mixed", shuffle=False, descriptive=False, numeric_names=False):
+    return Renderer(s, rng, spelling, shuffle, descriptive, numeric_names).render()
 
 
 # ----------------------------------------------------------------------------------------------- Coq printing
